@@ -11,11 +11,14 @@ package rt
 import (
 	"bytes"
 	"io/fs"
+	"path"
 	"runtime"
 	"sort"
 	"strconv"
+	"strings"
 	"sync"
 	"sync/atomic"
+	"syscall"
 	"time"
 )
 
@@ -225,7 +228,20 @@ func pollDelay(t *Task, attempt int) int64 {
 		h = Hash(cfg.Seed, 0x10c5, uint64(attempt))
 	}
 	span := uint64(cfg.PollMaxNs - cfg.PollMinNs + 1)
-	return cfg.PollMinNs + int64(h%span)
+	d := cfg.PollMinNs + int64(h%span)
+	// exponential back-off: a waiter that has polled many times is waiting for something
+	// long (a timeout, a wedge); simulated hand-over latency grows, real CPU cost stays low
+	if attempt > 8 {
+		shift := uint((attempt - 8) / 4)
+		if shift > 10 {
+			shift = 10
+		}
+		d <<= shift
+		if d > 50_000_000 {
+			d = 50_000_000 + int64(h%1_000_000)
+		}
+	}
+	return d
 }
 
 // Acquire takes a lock through try(), waiting in simulated time.
@@ -256,8 +272,8 @@ func Acquire(try func() bool, block func()) {
 	}
 }
 
-// LockWait is installed as go-diameter's SimLockWait.
-func LockWait() {
+// LockWait is installed as go-diameter's SimLockWait (called between failed TryLocks).
+func LockWait(attempt int) {
 	if !active.Load() {
 		runtime.Gosched()
 		return
@@ -271,7 +287,7 @@ func LockWait() {
 	} else {
 		anonPolls.Add(1)
 	}
-	time.Sleep(time.Duration(pollDelay(t, 1)))
+	time.Sleep(time.Duration(pollDelay(t, attempt)))
 }
 
 // Mutex replaces sync.Mutex in instrumented code.
@@ -357,6 +373,11 @@ func WriteFile(name string, data []byte, perm fs.FileMode) error {
 			tid = t.ID
 		}
 		at = Now()
+	}
+	// the simulated disk has exactly one directory, /tmp (where the CHF keeps its CDR
+	// files); like the real file system it refuses paths below directories that do not exist
+	if clean := path.Clean(name); path.Dir(clean) != "/tmp" || strings.ContainsRune(name, 0) || path.Base(clean) == "tmp" {
+		return &fs.PathError{Op: "open", Path: name, Err: syscall.ENOENT}
 	}
 	cp := append([]byte(nil), data...)
 	diskMu.Lock()
